@@ -49,7 +49,9 @@ class FCtx(object):
                     return ("tuple" if isinstance(v, tuple) else "list", tuple(("const", x) for x in v))
                 return None
             self_consts = (fref.node.args.args[0].arg, class_const)
-        self.ex = T.extract(fref.node, inliner=self._make_inliner(model, fref), const_resolver=resolver, self_consts=self_consts)
+        self.ex = T.extract(fref.node, inliner=self._make_inliner(model, fref), const_resolver=resolver, self_consts=self_consts,
+                            attr_renames=dict(getattr(model, "attr_renames", None) or {},
+                                              **dict(("<global>" + k, v) for k, v in (getattr(model, "func_renames", None) or {}).items())) or None)
         self.events = self.ex.events
         self.inlined = list(self.ex.inlined)
         # spelling-independent forms (string building, sort keys) for every term the rules look at
@@ -593,6 +595,9 @@ class FCtx(object):
                 return name
             return ren
 
+        def want_gen_probe(func):
+            return False
+
         def inliner(func, args, kws):
             if func[0] == "property":
                 # attribute access that is a property the rules do not know
@@ -627,10 +632,14 @@ class FCtx(object):
                 r = model.resolve_name(fref.module, func[1])
                 if r and r[0] == "func" and r[1].cls is None:
                     target = r[1]
+                    if not want_gen and "%s.%s" % (r[1].module.name, func[1].split(".")[-1]) in KNOWN_FUNCS:
+                        return None          # a known function (possibly under a new name, model.func_renames)
             elif func[0] == "attr" and selfname is not None and func[1] == ("param", selfname) and fref.cls is not None:
                 lk = fref.cls.lookup(func[2])
                 if lk and lk[0] is not fref.cls and "%s.%s" % (fref.cls.qname, func[2]) in KNOWN_FUNCS:
                     return None          # a method the rules know on this class, now inherited from a base class / mixin
+                if lk and "%s.%s" % (lk[0].qname, func[2]) in KNOWN_FUNCS and not want_gen_probe(func):
+                    return None          # a known method under a new name (model.attr_renames): still the known method
                 if lk and func[2] not in lk[0].properties:
                     target = FuncRef(lk[0].module, lk[0], lk[1])
                     if func[2] not in lk[0].staticmethods:
